@@ -36,6 +36,8 @@ pub fn run(_args: &[String]) -> i32 {
         // account names that are textual prefixes of one another (a parent with its own postings, a sub-account, a sibling):
         // an account's register lists that account's postings only
         "2024/01/01 open\n    Assets:Bank    100.00 X\n    Assets:Bank2    40.00 X\n    Equity\n\n2024/01/20 move\n    Assets:Bank:Savings    25.00 X\n    Assets:Bank    -25.00 X\n\n2024/02/01 food\n    Expenses:Food    12.50 X\n    Assets:Bank2    -12.50 X\n\n2024/02/01 fx\n    Assets    3 Y\n    Assets:Bank:Savings    -1.00 X\n\n",
+        // postings finer than the declared precision: a window report is the rounded SUM, not the sum of rounded postings (seed C04-m)
+        "commodity JPY\n    format 1,000 JPY\n\n2024/01/05 i1\n    Assets:Bank    0.4 JPY\n    Income:Interest\n\n2024/01/12 i2\n    Assets:Bank    0.4 JPY\n    Income:Interest\n\n2024/01/19 i3\n    Assets:Bank    0.4 JPY\n    Income:Interest\n\n2024/01/26 i4\n    Assets:Bank    0.4 JPY\n    Income:Interest\n\n2024/02/01 i5\n    Assets:Bank    0.4 JPY\n    Income:Interest\n\n",
         // transactions written `DATE=EFFECTIVE_DATE`: the window is decided by the transaction's (primary) date, the one the register
         // lists it under, whichever side of a boundary the effective date falls on (seed C04-k)
         "2024/01/30=2024/02/02 card\n    Expenses:Food    45.50 X\n    Liabilities:Card\n\n2024/02/03=2024/01/28 back-valued\n    Expenses:Fees    2.00 X\n    Liabilities:Card\n\n2024/01/31 plain\n    Expenses:Food    4.50 X\n    Liabilities:Card\n\n",
@@ -95,7 +97,7 @@ fn run_one(text: &str, bad: &mut Vec<(String, String)>, evaluated_out: &mut u64)
             sum.retain(|_, v| !v.is_zero());
             let mut want = whole.get(name).cloned().unwrap_or_default();
             want.retain(|_, v| !v.is_zero());
-            let tol: Decimal = if text.contains("format 1,000.00 X") { "0.005".parse().unwrap() } else { Decimal::ZERO };
+            let tol: Decimal = if text.contains("format 1,000.00 X") { "0.005".parse().unwrap() } else if text.contains("format 1,000 JPY") { "0.5".parse().unwrap() } else { Decimal::ZERO };
             let keys: std::collections::BTreeSet<&String> = sum.keys().chain(want.keys()).collect();
             let same = keys.into_iter().all(|c| (sum.get(c).copied().unwrap_or_default() - want.get(c).copied().unwrap_or_default()).abs() <= tol);
             if let Some(f) = foreign {
@@ -137,7 +139,9 @@ fn run_one(text: &str, bad: &mut Vec<(String, String)>, evaluated_out: &mut u64)
             let mut got_nz = got.clone();
             for (a, h) in &got {
                 for (c, v) in h {
-                    if v.is_zero() {
+                    // "never shows a commodity whose TOTAL is zero": a total that is not zero may still be displayed as 0 after rounding to the declared precision
+                    let true_total_is_zero = want.get(a).and_then(|w| w.get(c)).map(|x| x.is_zero()).unwrap_or(true);
+                    if v.is_zero() && true_total_is_zero {
                         bad.push((format!("start={:?} end={:?}", start, end), format!("account {} shows commodity {} with a zero total", a, c)));
                     }
                 }
@@ -145,7 +149,7 @@ fn run_one(text: &str, bad: &mut Vec<(String, String)>, evaluated_out: &mut u64)
             got_nz.retain(|_, h| !h.is_empty());
             want.retain(|_, h| !h.is_empty());
             // "up to rounding to declared precision": X is declared with 2 decimal places in the third ledger
-            let tol: Decimal = if text.contains("format 1,000.00 X") { "0.005".parse().unwrap() } else { Decimal::ZERO };
+            let tol: Decimal = if text.contains("format 1,000.00 X") { "0.005".parse().unwrap() } else if text.contains("format 1,000 JPY") { "0.5".parse().unwrap() } else { Decimal::ZERO };
             let close = |a: &Bal, b: &Bal| {
                 let keys: std::collections::BTreeSet<(&String, &String)> = a.iter().chain(b.iter()).flat_map(|(k, h)| h.keys().map(move |c| (k, c))).collect();
                 keys.into_iter().all(|(k, c)| {
